@@ -74,7 +74,8 @@ class Ctx:
 
     MAX_DECISIONS = 400
 
-    def __init__(self, prefix: List[bool], branch_timeout_ms=4000, on_obligation=None):
+    def __init__(self, prefix: List[bool], branch_timeout_ms=1500, on_obligation=None):
+        self.branch_timeout_ms = branch_timeout_ms
         self.prefix = list(prefix)
         self.decisions: List[bool] = []
         self.pending: List[List[bool]] = []
@@ -112,10 +113,11 @@ class Ctx:
         self.pc.append(t)
         self.solver.add(t)
 
-    def _feasible(self, t) -> Optional[bool]:
+    def _feasible(self, t, timeout_ms=None) -> Optional[bool]:
         self.solver.push()
         self.solver.add(t)
         self.n_solver_calls += 1
+        self.solver.set("timeout", timeout_ms or self.branch_timeout_ms)
         r = self.solver.check()
         self.solver.pop()
         if r == z3.sat:
@@ -183,7 +185,7 @@ class Ctx:
         if fact:
             self.assumed_facts += 1
             return
-        if self._feasible(z3.BoolVal(True)) is False:
+        if self._feasible(z3.BoolVal(True), 400) is False:
             raise PathEnd("assumption makes path infeasible")
 
     def check(self, claim, oid: str, **meta):
@@ -426,15 +428,185 @@ def _floordiv_int(x, y):
         return x / y, x % y  # z3 div/mod are Euclidean == floor for positive divisors
     if SymBool(y == 0).__bool__():
         raise ZeroDivisionError("integer division or modulo by zero")
+    cache = c.ghost.setdefault("idiv_cache", {})
+    x, y = z3.simplify(x), z3.simplify(y)
+    key = (x.get_id(), y.get_id())
+    hit = cache.get(key)
+    if hit is not None:
+        return hit[2], hit[3]
     q = z3.Int(c.fresh_name("q"))
     r = z3.Int(c.fresh_name("rem"))
     c.assume(z3.And(x == q * y + r, z3.If(y > 0, z3.And(0 <= r, r < y), z3.And(y < r, r <= 0))), fact=True)
+    # uniqueness of Euclidean division, instantiated against earlier divisions by the same divisor
+    # (a valid theorem; spares the solvers a non-linear integer argument they find only erratically)
+    n_hint = 0
+    for (kx, ky), (x0, y0, q0, r0) in list(cache.items())[-4:]:
+        if ky != key[1]:
+            continue
+        for k in (-1, 0, 1):
+            cand = (q0 + k) * y
+            c.assume(z3.Implies(z3.And(y > 0, cand <= x, x < cand + y), z3.And(q == q0 + k, r == x - cand)), fact=True)
+        n_hint += 1
+    cache[key] = (x, y, q, r)
     return q, r
 
 
+def _floor_atom(c, v):
+    """floor of an atomic real term v: `base + offset` (first atom on the path: the base itself).
+
+    Expressing every integer part relative to ONE base integer keeps the offsets bounded whenever
+    the reals involved are within a bounded distance of each other, which is what makes branch and
+    bound terminate on these mixed integer/real problems (calibrated: `unknown` at 20 s with
+    independent unbounded floor variables, `unsat` in 10 ms with offsets)."""
+    if v.decl().kind() == z3.Z3_OP_TO_REAL:
+        return v.arg(0)
+    cache = c.ghost.setdefault("floor_cache", {})
+    key = v.get_id()
+    hit = cache.get(key)
+    if hit is not None:
+        return hit[1]
+    base = c.ghost.get("floor_base")
+    if base is None:
+        k = z3.Int(c.fresh_name("ibase"))
+        c.ghost["floor_base"] = k
+    else:
+        k = base + z3.Int(c.fresh_name("ioff"))
+    c.assume(z3.And(z3.ToReal(k) <= v, v < z3.ToReal(k) + 1), fact=True)
+    cache[key] = (v, k)
+    return k
+
+
 def _floor_real(x):
-    """floor of a real term as Int term."""
-    return z3.ToInt(x)
+    """floor of a real term as an Int term.
+
+    Outside quantifier bodies:  floor(sum c_i*v_i + r) = sum c_i*floor(v_i) + d  for integer
+    coefficients c_i, with d a fresh integer and the defining fact  d <= x - sum c_i*floor(v_i) < d+1
+    (exact; pure linear mixed arithmetic instead of to_int)."""
+    c = _CTX
+    if c is None or c.quant_depth > 0:
+        return z3.ToInt(x)
+    x = z3.simplify(x, som=True)
+    if z3.is_rational_value(x) or z3.is_int_value(x):
+        return z3.simplify(z3.ToInt(x))
+    if x.decl().kind() == z3.Z3_OP_TO_REAL:
+        return x.arg(0)
+    cache = c.ghost.setdefault("floor_cache", {})
+    hit = cache.get(x.get_id())
+    if hit is not None:
+        return hit[1]
+    terms = x.children() if x.decl().kind() == z3.Z3_OP_ADD else [x]
+    ipart = []
+    n_atoms = 0
+    for t in terms:
+        coef, v = 1, t
+        if t.decl().kind() == z3.Z3_OP_MUL and t.num_args() == 2 and z3.is_rational_value(t.arg(0)):
+            q = t.arg(0)
+            if q.denominator_as_long() != 1:
+                continue
+            coef, v = q.numerator_as_long(), t.arg(1)
+        elif t.decl().kind() == z3.Z3_OP_UMINUS:
+            coef, v = -1, t.arg(0)
+        if z3.is_rational_value(v):
+            continue
+        if v.decl().kind() in (z3.Z3_OP_ITE,):
+            continue
+        n_atoms += 1
+        ipart.append(coef * _floor_atom(c, v))
+    if n_atoms == 1 and len(terms) == 1 and len(ipart) == 1 and z3.eq(z3.simplify(z3.ToReal(ipart[0])), z3.simplify(z3.ToReal(_floor_atom(c, x)))) if False else False:
+        return ipart[0]
+    if len(terms) == 1 and n_atoms == 1 and terms[0].decl().kind() not in (z3.Z3_OP_MUL, z3.Z3_OP_UMINUS):
+        return ipart[0]
+    isum = z3.IntVal(0)
+    for i_ in ipart:
+        isum = isum + i_
+    d = z3.Int(c.fresh_name("ifl"))
+    k = z3.simplify(isum + d)
+    c.assume(z3.And(z3.ToReal(k) <= x, x < z3.ToReal(k) + 1), fact=True)
+    cache[x.get_id()] = (x, k)
+    return k
+
+
+def real_div(x, y):
+    """x / y for real terms on a path where y != 0: by syntactic cancellation, else a fresh real
+    u with the defining fact u*y == x (multiplicative form: calibrated to be decided where the
+    solvers' native division with a symbolic divisor goes `unknown`)."""
+    if z3.is_rational_value(y) or z3.is_int_value(y):
+        return x / y
+    r = cancel(x, y)
+    if r is not None:
+        return z3.simplify(r)
+    c = _CTX
+    if c is None or c.quant_depth > 0:
+        return x / y
+    cache = c.ghost.setdefault("div_cache", {})
+    key = (x.get_id(), y.get_id())
+    hit = cache.get(key)
+    if hit is not None:
+        return hit[2]
+    # x / (x0/y0) = x*y0 / x0   when the divisor is itself a quotient introduced earlier
+    rev = c.ghost.setdefault("div_rev", {})
+    back = rev.get(y.get_id())
+    if back is not None:
+        x0, y0 = back
+        return real_div(z3.simplify(x * y0), x0)
+    u = z3.Real(c.fresh_name("quot"))
+    c.assume(z3.Implies(y != 0, u * y == x), fact=True)
+    cache[key] = (x, y, u)
+    rev[u.get_id()] = (x, y)
+    return u
+
+
+def cancel(x, y):
+    """x / y by syntactic cancellation (x a product/sum of products containing the factor y),
+    or None.  Sound on paths where y != 0."""
+    if z3.eq(x, y):
+        return z3.RealVal(1)
+    k = x.decl().kind()
+    yk = y.decl().kind()
+    # x / (p / q) = x * q / p
+    if yk == z3.Z3_OP_DIV:
+        p_, q_ = y.arg(0), y.arg(1)
+        if z3.is_rational_value(p_) and p_.numerator_as_long() != 0:
+            return z3.simplify(x * q_ / p_)
+        r = cancel(x, p_)
+        return None if r is None else r * q_
+    # y == -z
+    if yk == z3.Z3_OP_UMINUS:
+        r = cancel(x, y.arg(0))
+        return None if r is None else -r
+    if yk == z3.Z3_OP_MUL and y.num_args() == 2 and z3.is_rational_value(y.arg(0)):
+        r = cancel(x, y.arg(1))
+        return None if r is None else r / y.arg(0)
+    if z3.is_rational_value(x) and x.numerator_as_long() == 0:
+        return z3.RealVal(0)
+    if k == z3.Z3_OP_UMINUS:
+        r = cancel(x.arg(0), y)
+        return None if r is None else -r
+    if k == z3.Z3_OP_MUL:
+        ch = x.children()
+        for i, c_ in enumerate(ch):
+            r = cancel(c_, y)
+            if r is not None:
+                rest = ch[:i] + ch[i + 1 :]
+                out = r
+                for o in rest:
+                    out = o * out
+                return out
+        return None
+    if k in (z3.Z3_OP_ADD, z3.Z3_OP_SUB):
+        parts = [cancel(c_, y) for c_ in x.children()]
+        if any(p is None for p in parts):
+            return None
+        out = parts[0]
+        for p_ in parts[1:]:
+            out = out + p_ if k == z3.Z3_OP_ADD else out - p_
+        return out
+    if k == z3.Z3_OP_ITE:
+        a, b = cancel(x.arg(1), y), cancel(x.arg(2), y)
+        if a is None or b is None:
+            return None
+        return z3.If(x.arg(0), a, b)
+    return None
 
 
 class SymNum(SymBase):
@@ -507,7 +679,7 @@ class SymNum(SymBase):
             return SymReal(x / y)
         if SymBool(y == 0).__bool__():
             raise ZeroDivisionError("division by zero")
-        return SymReal(x / y)
+        return SymReal(real_div(x, y))
 
     def __truediv__(self, o):
         return SymNum._truediv(self, o)
@@ -580,6 +752,24 @@ class SymNum(SymBase):
         return self
 
     def __abs__(self):
+        c = _CTX
+        if c is not None and c.quant_depth == 0 and not z3.is_rational_value(self.t):
+            # decide the sign when the path condition fixes it (keeps later VCs linear)
+            key = ("abs", self.t.get_id())
+            hit = c.ghost.get(key)
+            if hit is None:
+                if c._feasible(self.t < 0, 300) is False:
+                    hit = 1
+                elif c._feasible(self.t > 0, 300) is False:
+                    hit = -1
+                else:
+                    hit = 0
+                c.ghost[key] = hit
+                c._keepalive.append(self.t)
+            if hit == 1:
+                return self
+            if hit == -1:
+                return wrap(-self.t)
         return wrap(z3.If(self.t >= 0, self.t, -self.t))
 
     # -- comparisons -----------------------------------------------------------------------
